@@ -1,3 +1,3 @@
 #!/bin/sh
 # replays this counterexample against the real build
-cd /tmp/dbg_x && VERIF_SCRIPT=/verif/replays/C20/VHarnessServerCheckstate_d1117f37_0/script.json VERIF_RAW_SALT=0 GOFLAGS=-mod=mod GOPROXY=off go test -vet=off -count=1 -overlay /verif/replays/C20/VHarnessServerCheckstate_d1117f37_0/overlay.json -run ^TestVerifReplay_VHarnessServerCheckstate$ -v ./mint
+cd /tmp/seedrepo_C20c && VERIF_SCRIPT=/verif/replays/C20/VHarnessServerCheckstate_d1117f37_0/script.json VERIF_RAW_SALT=0 GOFLAGS=-mod=mod GOPROXY=off go test -vet=off -count=1 -overlay /verif/replays/C20/VHarnessServerCheckstate_d1117f37_0/overlay.json -run ^TestVerifReplay_VHarnessServerCheckstate$ -v ./mint
